@@ -506,6 +506,23 @@ impl ReferenceProcessor<Arc<AtomicU32>, InsertReferencesResult, InsertReferences
             }
         }
 
+        /* Make sure the complete new content has reached the temporary file before it replaces
+         * the original: anything still held in the write cache would otherwise be written (or lost)
+         * after the rename.
+         */
+        if let Err(e) = scratch_file.file().flush().await
+        {
+            task::spawn(async move {
+                error!("[ref: 36] Failed to flush temporary file: {}", e);
+            })
+            .await;
+
+            return Some(InsertReferencesResult {
+                failure: true,
+                num_inserted_references: 0,
+            });
+        }
+
         match async_std::fs::rename(scratch_file.path(), path).await
         {
             Ok(_) =>
